@@ -23,11 +23,384 @@ Proof.
   - (* builtin scalar / JSON list *)
     destruct sh; destruct b; cbn; try exact I;
       (split; [reflexivity|]); eexists; cbn; repeat split; intros; try reflexivity; try discriminate.
-  - destruct sh; cbn; try exact I;
-      (split; [reflexivity|]); eexists; cbn; repeat split; intros; try reflexivity; try discriminate.
+  - destruct (String.eqb m "builtins") eqn:E1; [destruct sh; cbn; rewrite ?E1; exact I|].
+    destruct (String.eqb m "datetime") eqn:E2; [destruct sh; cbn; rewrite ?E1, ?E2; exact I|].
+    destruct sh; cbn; rewrite ?E1, ?E2; cbn; try exact I;
+      (split; [reflexivity|]); eexists; cbn; repeat split; intros; try reflexivity; try discriminate;
+      unfold col_code; cbn; rewrite E1, E2; reflexivity.
   - destruct (is_mapped M t) eqn:E.
     + destruct (is_mapped_find _ _ E) as [tc [F [_ N]]].
       destruct sh; cbn; rewrite E; cbn; unfold target_of; cbn; rewrite F; cbn; rewrite N;
         (split; [reflexivity|]); do 2 eexists; cbn; repeat split; reflexivity.
-    + destruct sh; cbn; exact I.
+    + destruct sh; cbn; rewrite E; exact I.
 Qed.
+
+(* ---------------------------------------------------------------- accessors *)
+Lemma wfM_class M c : wfM M = true -> In c M ->
+  str_nodup (field_names (c_fields c)) = true /\ forallb (field_in_grammar M) (c_fields c) = true
+  /\ forallb (is_mapped M) (c_bases c) = true /\ terminates (List.length M) M c = true.
+Proof.
+  intros W Hc. unfold wfM in W. apply andb_true_iff in W. destruct W as [_ W].
+  rewrite forallb_forall in W. specialize (W c Hc). unfold wf_class in W.
+  repeat (apply andb_true_iff in W; destruct W as [W ?]). auto.
+Qed.
+
+Lemma own_public_in M c f : In f (own_public_fields M c) -> In f (c_fields c).
+Proof. unfold own_public_fields, own_fields. intros H. apply filter_In in H. destruct H as [H _]. apply filter_In in H. tauto. Qed.
+
+Lemma Forall2_map_r {A B} (P : A -> B -> Prop) (g : A -> B) l : (forall x, In x l -> P x (g x)) -> Forall2 P l (map g l).
+Proof. induction l; simpl; intros H; constructor; auto. Qed.
+
+Lemma table_items_own M c : wfM M = true -> In c M -> table_items M c = map (parse_one M c) (own_public_fields M c).
+Proof. intros W Hc. unfold table_items. now rewrite parsed_fields_own. Qed.
+
+(* ---------------------------------------------------------------- C06_field_coverage *)
+Theorem field_coverage M c : wfM M = true -> In c M ->
+  exists its,
+    Forall2 (field_ok dao_of pk_of M c) (own_public_fields M c) its
+    /\ t_builtin (table_of M c) = flat_map i_builtin its
+    /\ (exists disc, t_custom (table_of M c) = flat_map i_custom its ++ disc /\ (disc = [] \/ disc = [disc_column]))
+    /\ t_fks (table_of M c) = flat_map i_fks its
+    /\ t_rels (table_of M c) = flat_map i_rels its
+    /\ table_items M c = its.
+Proof.
+  intros W Hc. exists (map (parse_one M c) (own_public_fields M c)).
+  split; [apply Forall2_map_r; intros; apply parse_one_ok|].
+  unfold table_of; cbn. rewrite (table_items_own M c W Hc). repeat split; auto.
+  eexists; split; [reflexivity|]. destruct (is_polymorphic_root _ _); auto.
+Qed.
+
+(* fields starting with "_" and inherited fields yield nothing: they are not among the fields a table is built from *)
+Lemma private_not_parsed M c f : wfM M = true -> In c M -> In f (parsed_fields M c) ->
+  is_public f = true /\ In f (c_fields c)
+  /\ ~ In (f_name f) (flat_map (fun p => field_names (c_fields p)) (ancestors (List.length M) M c)).
+Proof.
+  intros W Hc H. rewrite (parsed_fields_own M c W Hc) in H. unfold own_public_fields, own_fields in H.
+  apply filter_In in H. destruct H as [H P]. apply filter_In in H. destruct H as [H N].
+  repeat split; auto. apply negb_true_iff in N. now apply str_in_false.
+Qed.
+
+(* ---------------------------------------------------------------- no generation error inside the grammar *)
+Lemma grammar_no_err M c f : field_in_grammar M f = true -> i_err (parse_one M c f) = false.
+Proof.
+  intros G. pose proof (parse_one_ok M c f) as H. unfold field_ok in H. unfold field_in_grammar in G.
+  destruct (kind_of M f); try discriminate; tauto.
+Qed.
+
+Lemma items_no_err M c : wfM M = true -> In c M -> existsb i_err (table_items M c) = false.
+Proof.
+  intros W Hc. rewrite (table_items_own M c W Hc).
+  destruct (existsb i_err (map (parse_one M c) (own_public_fields M c))) eqn:E; auto.
+  apply existsb_exists in E. destruct E as [it [Hit E]]. apply in_map_iff in Hit. destruct Hit as [f [<- Hf]].
+  destruct (wfM_class M c W Hc) as [_ [G _]]. rewrite forallb_forall in G.
+  rewrite (grammar_no_err M c f) in E; [discriminate|]. apply G. now apply own_public_in in Hf.
+Qed.
+
+Theorem gen_no_error M order : wfM M = true -> (forall c, In c order -> In c M) -> s_error (gen M order) = false.
+Proof.
+  intros W Ho. unfold gen; cbn.
+  destruct (existsb _ order) eqn:E; auto. apply existsb_exists in E. destruct E as [c [Hc E]].
+  rewrite (items_no_err M c W (Ho c Hc)) in E. discriminate.
+Qed.
+
+(* ---------------------------------------------------------------- one DAO per class, inheritance mirrored *)
+Theorem one_dao_per_class M order : topo M order ->
+  s_tables (gen M order) = map (table_of M) order
+  /\ map t_cls (s_tables (gen M order)) = map c_name order
+  /\ NoDup (map t_cls (s_tables (gen M order)))
+  /\ (forall c, In c M -> In (table_of M c) (s_tables (gen M order)))
+  /\ (forall t, In t (s_tables (gen M order)) -> exists c, In c M /\ t = table_of M c).
+Proof.
+  intros [T1 [T2 _]]. unfold gen; cbn. repeat split.
+  - rewrite map_map. reflexivity.
+  - rewrite map_map. exact T2.
+  - intros c Hc. apply in_map. now apply T1.
+  - intros t Ht. apply in_map_iff in Ht. destruct Ht as [c [<- Hc]]. exists c. split; auto. now apply T1.
+Qed.
+
+Theorem mirrors_inheritance M c :
+  t_name (table_of M c) = dao_of (c_name c) /\ t_cls (table_of M c) = c_name c /\ t_module (table_of M c) = c_module c
+  /\ t_base (table_of M c) = option_map (fun p => dao_of (c_name p)) (parent_of M c)
+  /\ t_pk_target (table_of M c) = match parent_of M c with Some p => pk_of (dao_of (c_name p)) | None => "" end.
+Proof. unfold table_of; cbn. repeat split. Qed.
+
+Lemma bases_first_gen M : forall order seen, parents_first M seen order = true ->
+  wf_bases_first (map tablename seen) (map (table_of M) order) = true.
+Proof.
+  induction order as [|c r IH]; intros seen H; simpl in *; auto.
+  apply andb_true_iff in H. destruct H as [H1 H2]. apply andb_true_iff. split.
+  - destruct (parent_of M c) as [p|]; cbn; auto. apply str_in_In. apply in_map. now apply str_in_In.
+  - apply (IH (c_name c :: seen) H2).
+Qed.
+
+Theorem bases_first M order : topo M order -> wf_bases_first [] (s_tables (gen M order)) = true.
+Proof. intros [_ [_ T]]. exact (bases_first_gen M order [] T). Qed.
+
+(* ---------------------------------------------------------------- association tables *)
+Lemma assoc_shape M c f a : In a (i_assoc (parse_one M c f)) ->
+  exists t, kind_of M f = KColl t
+    /\ a_name a = o2m_association_table_name (tablename (c_name c)) (f_name f)
+    /\ a_lfk a = o2m_left_fk_name (tablename (c_name c)) /\ a_rfk a = o2m_right_fk_name (tablename t)
+    /\ a_lpk a = pk_of (dao_of (c_name c)) /\ a_rpk a = pk_of (dao_of t).
+Proof.
+  unfold kind_of, parse_one. destruct f as [nm sh ep d]. destruct ep as [b|m e|t]; simpl f_ep.
+  - destruct sh; destruct b; cbn; intros [].
+  - destruct sh; cbn; try (intros H; destruct H; fail); destruct (String.eqb m "builtins"); cbn; intros H; destruct H.
+  - destruct (is_mapped M t) eqn:E.
+    + destruct (is_mapped_find _ _ E) as [tc [F [_ N]]].
+      destruct sh; cbn; rewrite ?E; cbn; unfold target_of; cbn; rewrite F; cbn; rewrite ?N; intros H;
+        try (destruct H; fail); destruct H as [<-|[]]; exists t; cbn; repeat split; reflexivity.
+    + destruct sh; cbn; rewrite ?E; cbn; unfold target_of; cbn; intros H; try (destruct H; fail).
+      all: unfold is_mapped in E; destruct (find_cls M t); [discriminate|destruct H].
+Qed.
+
+Lemma lower_dao_inj a b : py_lower (tablename a) = py_lower (tablename b) -> py_lower a = py_lower b.
+Proof. unfold tablename. rewrite !py_lower_append. apply append_inj_l. Qed.
+
+Theorem assoc_columns_distinct M order : wfM M = true -> F_selfcoll M = true -> (forall c, In c order -> In c M) ->
+  wf_assoc_columns (gen M order) = true.
+Proof.
+  intros W F Ho. unfold wf_assoc_columns, gen; cbn. apply forallb_forall. intros a Ha.
+  apply in_flat_map in Ha. destruct Ha as [c [Hc Ha]]. pose proof (Ho c Hc) as HcM.
+  rewrite (table_items_own M c W HcM) in Ha. apply in_flat_map in Ha. destruct Ha as [it [Hit Ha]].
+  apply in_map_iff in Hit. destruct Hit as [f [<- Hf]].
+  destruct (assoc_shape M c f a Ha) as [t [K [_ [L [R _]]]]].
+  apply negb_true_iff. apply String.eqb_neq. intros E. rewrite L, R in E.
+  unfold o2m_left_fk_name, o2m_right_fk_name in E. apply append_inj_l in E. apply lower_dao_inj in E.
+  unfold F_selfcoll in F. rewrite forallb_forall in F. specialize (F c HcM). rewrite forallb_forall in F.
+  specialize (F f Hf). rewrite K in F. apply negb_true_iff in F. apply String.eqb_neq in F. congruence.
+Qed.
+
+(* ---------------------------------------------------------------- polymorphic roots and derived tables *)
+Lemma has_kv_here t k v r : t_mapper t = r -> In (k, v) r -> has_kv t k v = true.
+Proof.
+  intros E H. unfold has_kv. rewrite E. apply existsb_exists. exists (k, v). split; auto. cbn. now rewrite !String.eqb_refl.
+Qed.
+
+Lemma tablename_inj a b : tablename a = tablename b -> a = b.
+Proof. unfold tablename. apply append_inj_l. Qed.
+
+Lemma mapper_derived M c p : parent_of M c = Some p ->
+  t_mapper (table_of M c) = mapper_args_derived (tablename (c_name c)) ++ mapper_args_joined (pk_of (dao_of (c_name p))).
+Proof. intros P. unfold table_of; cbn. rewrite P. reflexivity. Qed.
+
+Lemma mapper_root M c : parent_of M c = None -> has_children M c = true ->
+  t_mapper (table_of M c) = mapper_args_root (tablename (c_name c))
+  /\ t_custom (table_of M c) = flat_map i_custom (table_items M c) ++ [disc_column].
+Proof. intros P H. unfold table_of; cbn. rewrite P, H. cbn. rewrite ?app_nil_r. auto. Qed.
+
+Theorem polymorphic_ok M order : wfM M = true -> (forall c, In c order -> In c M) -> wf_polymorphic (gen M order) = true.
+Proof.
+  intros W Ho. unfold wf_polymorphic. apply forallb_forall. intros t Ht. cbn in Ht.
+  apply in_map_iff in Ht. destruct Ht as [c [<- Hc]].
+  destruct (mirrors_inheritance M c) as [N [_ [_ [B PT]]]].
+  destruct (parent_of M c) as [p|] eqn:P.
+  - (* derived *)
+    rewrite B. cbn [option_map]. rewrite N, PT. rewrite !andb_true_iff. repeat split.
+    + eapply has_kv_here; [apply (mapper_derived M c p P)|]. left; reflexivity.
+    + eapply has_kv_here; [apply (mapper_derived M c p P)|]. right; left; reflexivity.
+    + apply String.eqb_eq. reflexivity.
+  - (* root *)
+    rewrite B. cbn [option_map]. destruct (existsb _ (s_tables (gen M order))) eqn:E; auto.
+    apply existsb_exists in E. destruct E as [u [Hu E]]. cbn in Hu. apply in_map_iff in Hu. destruct Hu as [d [<- Hd]].
+    assert (HC : has_children M c = true).
+    { unfold has_children. apply existsb_exists. exists d. split; [now apply Ho|].
+      destruct (mirrors_inheritance M d) as [_ [_ [_ [Bd _]]]]. rewrite Bd in E.
+      destruct (parent_of M d) as [q|]; cbn in E; [|discriminate].
+      apply String.eqb_eq in E. rewrite ?N in E. apply tablename_inj in E. rewrite E. apply String.eqb_refl. }
+    destruct (mapper_root M c P HC) as [MR CU]. rewrite N. rewrite !andb_true_iff. repeat split.
+    + apply str_in_In. rewrite CU, map_app. apply in_app_iff. right. left; reflexivity.
+    + eapply has_kv_here; [apply MR|]. left; reflexivity.
+    + eapply has_kv_here; [apply MR|]. right; left; reflexivity.
+Qed.
+
+(* ---------------------------------------------------------------- imports *)
+Definition item_mods (it : items) : list string :=
+  flat_map col_mods (i_builtin it) ++ flat_map col_mods (i_custom it) ++ flat_map fk_mods (i_fks it) ++ flat_map rel_mods (i_rels it).
+
+Lemma item_mods_ok M c f m : In m (item_mods (parse_one M c f)) ->
+  m = "typing" \/ m = "builtins" \/ In m (i_imports (parse_one M c f)).
+Proof.
+  unfold item_mods, parse_one. destruct f as [nm sh ep d]. destruct ep as [b|mo e|t]; simpl f_ep.
+  - destruct sh; destruct b; cbn; intuition.
+  - destruct sh; cbn; try (intuition; fail); destruct (String.eqb mo "builtins") eqn:EB; cbn; intuition;
+      destruct (String.eqb mo ""); cbn in *; intuition;
+      apply String.eqb_eq in EB; subst; auto.
+  - destruct (is_mapped M t) eqn:E.
+    + destruct (is_mapped_find _ _ E) as [tc [F [_ N]]].
+      destruct sh; cbn; rewrite ?E; cbn; unfold target_of; cbn; rewrite F; cbn; intuition.
+    + destruct sh; cbn; rewrite ?E; cbn; unfold target_of; cbn; try (intuition; fail);
+        unfold is_mapped in E; destruct (find_cls M t); try discriminate; cbn; intuition.
+Qed.
+
+Lemma in_flat_flat {A B C} (g : C -> list B) (h : B -> list A) (l : list C) x :
+  In x (flat_map h (flat_map g l)) -> exists it, In it l /\ In x (flat_map h (g it)).
+Proof.
+  intros H. apply in_flat_map in H. destruct H as [b [Hb Hx]]. apply in_flat_map in Hb. destruct Hb as [it [Hit Hb]].
+  exists it. split; auto. apply in_flat_map. eauto.
+Qed.
+
+Theorem imports_closed M order : wfM M = true -> F_hasbuiltin M = true -> topo M order ->
+  wf_imports (gen M order) = true.
+Proof.
+  intros W F [T1 _]. unfold wf_imports. apply forallb_forall. intros t Ht. cbn in Ht.
+  apply in_map_iff in Ht. destruct Ht as [c [<- Hc]]. pose proof (proj1 (T1 c) Hc) as HcM.
+  apply str_subset_incl. intros m Hm.
+  assert (TY : In "typing" (s_imports (gen M order))) by (cbn; auto).
+  assert (BI : In "builtins" (s_imports (gen M order))).
+  { unfold F_hasbuiltin in F. apply existsb_exists in F. destruct F as [d [Hd F]]. apply existsb_exists in F.
+    destruct F as [f [Hf F]]. cbn. right. right. apply in_app_iff. right.
+    apply in_flat_map. exists d. split; [now apply T1|]. rewrite (table_items_own M d W Hd).
+    apply in_flat_map. exists (parse_one M d f). split; [now apply in_map|].
+    unfold parse_one. destruct f as [nm sh ep dd]. cbn in F. destruct ep as [b| |]; try discriminate.
+    destruct sh; cbn in F; try discriminate; destruct b; cbn in *; auto; discriminate. }
+  assert (IT : forall it, In it (table_items M c) -> forall x, In x (item_mods it) -> In x (s_imports (gen M order))).
+  { intros it Hit x Hx. rewrite (table_items_own M c W HcM) in Hit. apply in_map_iff in Hit. destruct Hit as [f [<- Hf]].
+    destruct (item_mods_ok M c f x Hx) as [->|[->|I]]; auto.
+    cbn. right. right. apply in_app_iff. right. apply in_flat_map. exists c. split; auto.
+    rewrite (table_items_own M c W HcM). apply in_flat_map. exists (parse_one M c f). split; auto. now apply in_map. }
+  unfold table_mods in Hm. cbn [app] in Hm. destruct Hm as [<-|[<-|Hm]]; auto.
+  - cbn. right. right. apply in_app_iff. left. apply in_map_iff. exists c. auto.
+  - unfold table_of in Hm; cbn in Hm. rewrite !in_app_iff in Hm. unfold item_mods in IT.
+    destruct Hm as [Hm|[Hm|[Hm|Hm]]].
+    + apply in_flat_flat in Hm. destruct Hm as [it [Hit Hm]]. apply (IT it Hit). rewrite !in_app_iff. auto.
+    + rewrite flat_map_app, in_app_iff in Hm. destruct Hm as [Hm|Hm].
+      * apply in_flat_flat in Hm. destruct Hm as [it [Hit Hm]]. apply (IT it Hit). rewrite !in_app_iff. auto.
+      * destruct (is_polymorphic_root _ _); cbn in Hm; tauto.
+    + apply in_flat_flat in Hm. destruct Hm as [it [Hit Hm]]. apply (IT it Hit). rewrite !in_app_iff. auto.
+    + apply in_flat_flat in Hm. destruct Hm as [it [Hit Hm]]. apply (IT it Hit). rewrite !in_app_iff. auto.
+Qed.
+
+(* ---------------------------------------------------------------- every foreign key / relationship target exists *)
+Lemma kind_ref_mapped M f t : kind_of M f = KRef t \/ kind_of M f = KColl t -> exists tc, In tc M /\ c_name tc = t.
+Proof.
+  unfold kind_of. destruct (f_ep f) as [b| |u]; destruct (is_coll (f_shape f)); try destruct (json_elem b);
+    try destruct (_ || _); try (intros [H|H]; discriminate).
+  all: destruct (is_mapped M u) eqn:E; try (intros [H|H]; discriminate).
+  all: destruct (is_mapped_find _ _ E) as [tc [_ [A B]]]; intros [H|H]; inversion H; subst; eauto.
+Qed.
+
+Lemma item_targets M c f : field_in_grammar M f = true ->
+  let it := parse_one M c f in
+  (forall k, In k (i_fks it) -> exists tc, In tc M /\ fk_target k = pk_of (dao_of (c_name tc)))
+  /\ (forall r, In r (i_rels it) -> exists tc, In tc M /\ rel_target r = dao_of (c_name tc)
+         /\ (rel_secondary r = "" \/ In (rel_secondary r) (map a_name (i_assoc it)))
+         /\ (rel_uselist r = true \/ In (rel_fk r) (map fk_name (i_fks it))))
+  /\ (forall a, In a (i_assoc it) -> a_lpk a = pk_of (dao_of (c_name c)) /\ exists tc, In tc M /\ a_rpk a = pk_of (dao_of (c_name tc))).
+Proof.
+  intros G it. pose proof (parse_one_ok M c f) as H. fold it in H. unfold field_ok in H. unfold field_in_grammar in G.
+  destruct (kind_of M f) eqn:K; try discriminate.
+  - destruct H as [_ [col [_ [_ [_ [_ [_ [A [B C]]]]]]]]]. rewrite A, B, C. split; [|split]; intros ? Hx; destruct Hx.
+  - destruct (kind_ref_mapped M f target (or_introl K)) as [tc [Htc N]].
+    destruct H as [_ [k [r [A [B [_ [_ [C [_ [T [U [FK [S FT]]]]]]]]]]]]]. rewrite A, B, C. split; [|split].
+    + intros k' [<-|[]]. exists tc. rewrite N. auto.
+    + intros r' [<-|[]]. exists tc. rewrite N. repeat split; auto. right. cbn. auto.
+    + intros ? [].
+  - destruct (kind_ref_mapped M f target (or_intror K)) as [tc [Htc N]].
+    destruct H as [_ [a [r [A [B [_ [_ [C [_ [T [U [S [L R]]]]]]]]]]]]]. rewrite A, B, C. split; [|split].
+    + intros ? [].
+    + intros r' [<-|[]]. exists tc. rewrite N. repeat split; auto. right. cbn. auto.
+    + intros a' [<-|[]]. split; auto. exists tc. rewrite N. auto.
+Qed.
+
+Lemma pk_in M order tc : In tc order -> In (pk_of (dao_of (c_name tc))) (pk_names (gen M order)).
+Proof. intros H. unfold pk_names; cbn. rewrite map_map. apply in_map_iff. exists tc. split; auto. Qed.
+
+Lemma tn_in M order tc : In tc order -> In (dao_of (c_name tc)) (table_names (gen M order)).
+Proof. intros H. unfold table_names; cbn. rewrite map_map. apply in_map_iff. exists tc. split; auto. Qed.
+
+Theorem fk_targets_exist M order : wfM M = true -> topo M order -> wf_fk_targets (gen M order) = true.
+Proof.
+  intros W [T1 _]. unfold wf_fk_targets. apply andb_true_iff. split.
+  - apply forallb_forall. intros t Ht. cbn in Ht. apply in_map_iff in Ht. destruct Ht as [c [<- Hc]].
+    pose proof (proj1 (T1 c) Hc) as HcM. destruct (wfM_class M c W HcM) as [_ [G _]]. rewrite forallb_forall in G.
+    assert (IT : forall it, In it (table_items M c) -> exists f, it = parse_one M c f /\ field_in_grammar M f = true).
+    { intros it Hit. rewrite (table_items_own M c W HcM) in Hit. apply in_map_iff in Hit. destruct Hit as [f [<- Hf]].
+      exists f. split; auto. apply G. now apply own_public_in in Hf. }
+    rewrite !andb_true_iff. repeat split.
+    + apply forallb_forall. intros k Hk. unfold table_of in Hk; cbn in Hk. apply in_flat_map in Hk.
+      destruct Hk as [it [Hit Hk]]. destruct (IT it Hit) as [f [-> Gf]].
+      destruct (item_targets M c f Gf) as [A _]. destruct (A k Hk) as [tc [Htc ->]].
+      apply str_in_In. apply pk_in. now apply T1.
+    + apply forallb_forall. intros r Hr. unfold table_of in Hr; cbn in Hr. apply in_flat_map in Hr.
+      destruct Hr as [it [Hit Hr]]. destruct (IT it Hit) as [f [-> Gf]].
+      destruct (item_targets M c f Gf) as [_ [A _]]. destruct (A r Hr) as [tc [Htc [-> _]]].
+      apply str_in_In. apply tn_in. now apply T1.
+    + apply forallb_forall. intros r Hr. unfold table_of in Hr; cbn in Hr. apply in_flat_map in Hr.
+      destruct Hr as [it [Hit Hr]]. destruct (IT it Hit) as [f [E Gf]]. subst it.
+      destruct (item_targets M c f Gf) as [_ [A _]]. destruct (A r Hr) as [tc [_ [_ [[S|S] _]]]].
+      * rewrite S. reflexivity.
+      * apply orb_true_iff. right. apply str_in_In. cbn. apply in_map_iff in S. destruct S as [a [<- Ha]].
+        apply in_map. apply in_flat_map. exists c. split; auto. apply in_flat_map. eauto.
+    + apply forallb_forall. intros r Hr. unfold table_of in Hr; cbn in Hr. apply in_flat_map in Hr.
+      destruct Hr as [it [Hit Hr]]. destruct (IT it Hit) as [f [E Gf]]. subst it.
+      destruct (item_targets M c f Gf) as [_ [A _]]. destruct (A r Hr) as [tc [_ [_ [_ [S|S]]]]].
+      * rewrite S. reflexivity.
+      * apply orb_true_iff. right. apply str_in_In. unfold table_of; cbn. apply in_map_iff in S. destruct S as [k [<- Hk]].
+        apply in_map. apply in_flat_map. eauto.
+    + destruct (mirrors_inheritance M c) as [_ [_ [_ [_ PT]]]]. rewrite PT.
+      destruct (parent_of M c) as [p|] eqn:P; [|reflexivity]. apply orb_true_iff. right.
+      apply str_in_In. apply pk_in. apply T1. now destruct (parent_in _ _ _ P).
+  - apply forallb_forall. intros a Ha. cbn in Ha. apply in_flat_map in Ha. destruct Ha as [c [Hc Ha]].
+    pose proof (proj1 (T1 c) Hc) as HcM. destruct (wfM_class M c W HcM) as [_ [G _]]. rewrite forallb_forall in G.
+    rewrite (table_items_own M c W HcM) in Ha. apply in_flat_map in Ha. destruct Ha as [it [Hit Ha]].
+    apply in_map_iff in Hit. destruct Hit as [f [<- Hf]].
+    destruct (item_targets M c f (G f (own_public_in M c f Hf))) as [_ [_ A]]. destruct (A a Ha) as [L [tc [Htc R]]].
+    rewrite L, R. apply andb_true_iff. split; apply str_in_In; apply pk_in; auto. now apply T1.
+Qed.
+
+(* ---------------------------------------------------------------- determinism: the tables do not depend on the emission order *)
+Theorem tables_order_independent M o1 o2 : Permutation o1 o2 ->
+  Permutation (s_tables (gen M o1)) (s_tables (gen M o2)).
+Proof. intros P. unfold gen; cbn. now apply Permutation_map. Qed.
+
+(* ---------------------------------------------------------------- refutation witnesses (defect classes outside F) *)
+Definition fld (n : string) (sh : shape) (ep : endpoint) : field := {| f_name := n; f_shape := sh; f_ep := ep; f_default := true |}.
+Definition kls (n : string) (bases : list string) (fs : list field) : cls :=
+  {| c_name := n; c_module := "m"; c_bases := bases; c_fields := fs |}.
+
+Lemma topo_self M : str_nodup (map c_name M) = true -> parents_first M [] M = true -> topo M M.
+Proof. intros A B. split; [tauto|]. split; auto. now apply str_nodup_NoDup. Qed.
+
+Definition M_selfcoll : cmodel := [kls "Node" [] [fld "v" SPlain (EB BInt); fld "kids" SList (ECls "Node")]].
+Definition M_nobuiltin : cmodel :=
+  [kls "Ev" [] [fld "at" SPlain (EB BDatetime); fld "c" SPlain (EEnum "me" "Col"); fld "nxt" SOpt (ECls "Ev")]].
+Definition M_fkalias : cmodel :=
+  [kls "Tgt" [] [fld "v" SPlain (EB BInt)]; kls "Src" [] [fld "x" SOpt (ECls "Tgt"); fld "x_id" SPlain (EB BInt)]].
+Definition M_reserved : cmodel := [kls "Doc" [] [fld "v" SPlain (EB BInt); fld "metadata" SPlain (EB BStr)]].
+Definition M_pkname : cmodel := [kls "Doc" [] [fld "v" SPlain (EB BInt); fld "database_id" SPlain (EB BInt)]].
+Definition M_discname : cmodel :=
+  [kls "Doc" [] [fld "v" SPlain (EB BInt); fld "polymorphic_type" SPlain (EB BInt)]; kls "Sub" ["Doc"] [fld "w" SPlain (EB BInt)]].
+Definition M_casefold : cmodel := [kls "Ab" [] [fld "v" SPlain (EB BInt)]; kls "AB" [] [fld "w" SPlain (EB BInt)]].
+Definition M_assocname : cmodel :=
+  [kls "A" [] [fld "v" SPlain (EB BInt); fld "bdao_c" SList (ECls "T")]; kls "Adao_b" [] [fld "c" SList (ECls "T")]; kls "T" [] []].
+
+Ltac refute M := exists M, M; split; [vm_compute; reflexivity|]; split; [apply topo_self; vm_compute; reflexivity|]; vm_compute; auto.
+
+Lemma refuted_selfcoll : exists M order, wfM M = true /\ topo M order /\ wf_assoc_columns (gen M order) = false.
+Proof. refute M_selfcoll. Qed.
+Lemma refuted_nobuiltin : exists M order, wfM M = true /\ topo M order /\ wf_imports (gen M order) = false.
+Proof. refute M_nobuiltin. Qed.
+Lemma refuted_fkalias : exists M order, wfM M = true /\ topo M order /\ wf_attrs_unique (gen M order) = false.
+Proof. refute M_fkalias. Qed.
+Lemma refuted_reserved : exists M order, wfM M = true /\ topo M order /\ wf_attrs_not_reserved (gen M order) = false.
+Proof. refute M_reserved. Qed.
+Lemma refuted_pkname : exists M order, wfM M = true /\ topo M order /\ wf_attrs_unique (gen M order) = false.
+Proof. refute M_pkname. Qed.
+Lemma refuted_discname : exists M order, wfM M = true /\ topo M order /\ wf_attrs_unique (gen M order) = false.
+Proof. refute M_discname. Qed.
+Lemma refuted_casefold : exists M order, wfM M = true /\ topo M order /\ wf_table_names_unique (gen M order) = false.
+Proof. refute M_casefold. Qed.
+Lemma refuted_assocname : exists M order, wfM M = true /\ topo M order /\ wf_table_names_unique (gen M order) = false.
+Proof. refute M_assocname. Qed.
+
+(* a model of the grammar, inside F, with inheritance, a reference, collections and a private field: everything holds *)
+Definition M_example : cmodel :=
+  [kls "Aa" [] [fld "x" SPlain (EB BInt); fld "s" SOpt (EB BStr); fld "e" SOpt (EEnum "me" "Col"); fld "l" SList (EB BInt);
+                fld "_p" SPlain (EB BInt); fld "r" SOpt (ECls "Bb"); fld "rs" SList (ECls "Cc")];
+   kls "Bb" ["Aa"] [fld "y" SPlain (EB BFloat); fld "x" SPlain (EB BInt); fld "me" SPlain (ECls "Bb")];
+   kls "Cc" [] [fld "bs" SSet (ECls "Aa"); fld "bs2" SList (ECls "Aa")]].
+Lemma example_ok : wfM M_example = true /\ inF M_example = true /\ topo M_example M_example
+  /\ schema_wf (gen M_example M_example) = true /\ model_obs (gen M_example M_example) = spec_obs M_example.
+Proof. split; [vm_compute; reflexivity|]. split; [vm_compute; reflexivity|]. split; [apply topo_self; vm_compute; reflexivity|].
+  split; vm_compute; reflexivity. Qed.
